@@ -217,6 +217,11 @@ def check_coh(case):
     rec = case['rec']
     grown = bool(case.get('grown')) and len(rec['blocks']) >= 2 and rec['columns']['kind'] != 'ih' and all(b.size or b.ndim == 1 for b in rec['blocks'])
     f = _grown_frame(rec) if grown else gen.build_frame(rec)
+    if grown and len(rec['index']['labels']) % 2 == 0:
+        # a deep copy of the grown frame grows further: the frame read below must not see it (one dtype per column label, still)
+        import copy
+        twin = copy.deepcopy(f)
+        twin[10 ** 6 if rec['columns']['kind'] in ('auto', 'int') else '__extra__'] = np.arange(len(rec['index']['labels']))
     cols = gen.block_columns(rec['blocks'])
     model = [arr_list(c) for c in cols]
     il, cl = [canon(x) for x in rec['index']['labels']], [canon(x) for x in rec['columns']['labels']]
